@@ -50,6 +50,11 @@ Proof.
     pose proof (handler_write_lease_inv c s own sid Hinv) as H.
     destruct (handler_write c s sid _); auto. destruct H as (H1 & H2 & H3).
     exists own. split; auto. intros b Hb. rewrite H2. apply Hws; auto.
+  - (* AHWriteMsg *)
+    destruct G as (own & Hinv & Hws). cbn [ustep].
+    pose proof (handler_write_msg_inv c s own sid ulen bs Hinv) as H.
+    destruct (handler_write c s sid _); auto. destruct H as (H1 & H2 & H3).
+    exists own. split; auto. intros b Hb. rewrite H2. apply Hws; auto.
   - apply hflush_ok; auto.
   - (* AHReject *)
     destruct G as (own & Hinv & Hws). cbn [ustep].
